@@ -2,6 +2,7 @@ package c04
 
 import (
 	"fmt"
+	"math"
 	"strings"
 	"testing"
 
@@ -82,7 +83,7 @@ func genSplit(t *rapid.T) splitCase {
 	switch uni(t, 16, "perturb") {
 	case 0: // a range outside the alignment
 		i := rapid.IntRange(0, len(c.Ranges)-1).Draw(t, "which")
-		switch rapid.IntRange(0, 3).Draw(t, "how") {
+		switch uni(t, 7, "how") {
 		case 0:
 			c.Ranges[i].Start = -1
 		case 1:
@@ -90,8 +91,19 @@ func genSplit(t *rapid.T) splitCase {
 		case 2:
 			c.Ranges[i].End = l + 1
 		case 3:
-			c.Ranges[i].Mod = rapid.SampledFrom([]int{0, -1}).Draw(t, "badmod")
+			c.Ranges[i].Mod = []int{0, -1, math.MinInt, math.MinInt + 1}[uni(t, 4, "badmod")]
+		case 4:
+			c.Ranges[i].Start = []int{math.MinInt, math.MinInt + 1}[uni(t, 2, "hugestart")]
+		case 5:
+			c.Ranges[i].End = []int{math.MaxInt, math.MaxInt - 1, math.MaxInt/2 + 1}[uni(t, 3, "hugeend")]
+		case 6:
+			c.Ranges[i].Start = []int{math.MinInt, -1}[uni(t, 2, "s2")]
+			c.Ranges[i].End = math.MaxInt
 		}
+	case 4: // a huge modulo is a valid one: only the first site of the range belongs to the partition
+		i := rapid.IntRange(0, len(c.Ranges)-1).Draw(t, "which")
+		c.Ranges[i].Mod = []int{math.MaxInt, math.MaxInt - 1, math.MaxInt/2 + 1}[uni(t, 3, "hugemod")]
+		// the sites it no longer takes stay without partition
 	case 1: // a range given twice
 		i := rapid.IntRange(0, len(c.Ranges)-1).Draw(t, "which")
 		c.Ranges = append(c.Ranges, c.Ranges[i])
@@ -155,6 +167,9 @@ func modelPartition(ranges []rng, l int) partModel {
 				return m
 			}
 			m.Site[i] = idx
+			if r.Mod > r.End-i { // the next step would leave the range (and may overflow)
+				break
+			}
 		}
 	}
 	return m
@@ -621,3 +636,123 @@ func TestExhaustive(t *testing.T) {
 		return
 	})
 }
+
+// ---- a history on one partition set: Split after every AddRange ---------------------------------------
+
+type histCase struct {
+	Ali      gen.Ali `json:"ali"`
+	Ranges   []rng   `json:"ranges"`    // pairwise disjoint, in the order they are added
+	FromText int     `json:"from_text"` // the first ranges come from parsed text, the others from AddRange
+}
+
+func genHist(t *rapid.T) histCase {
+	var c histCase
+	c.Ali = genAli(t, 4, 2, 24)
+	rs := genRanges(t, aliLen(c.Ali))
+	for i := range rs {
+		rs[i].Model = modelNames[uni(t, len(modelNames), "model")]
+	}
+	// any order: a later AddRange may give earlier columns to an existing partition
+	for _, i := range gen.Perm(t, len(rs), "order") {
+		c.Ranges = append(c.Ranges, rs[i])
+	}
+	c.FromText = rapid.IntRange(0, len(c.Ranges)).Draw(t, "fromtext")
+	if uni(t, 3, "notext") == 0 {
+		c.FromText = 0
+	}
+	return c
+}
+
+// judgeSplit compares Split(ps) with the model of the ranges applied so far
+func judgeSplit(rows []gen.Row, al align.Alignment, ps *align.PartitionSet, m partModel, what string) error {
+	blocks, e := al.Split(ps)
+	if len(m.Names) <= 1 {
+		if e == nil {
+			return fmt.Errorf("%s: Split with %d partition(s) accepted", what, len(m.Names))
+		}
+		return nil
+	}
+	if e != nil {
+		return fmt.Errorf("%s: Split refused: %v", what, e)
+	}
+	if len(blocks) != len(m.Names) {
+		return fmt.Errorf("%s: Split returns %d alignments for %d partitions", what, len(blocks), len(m.Names))
+	}
+	cols := make([][]int, len(m.Names))
+	for i, p := range m.Site {
+		if ps.Partition(i) != p {
+			return fmt.Errorf("%s: site %d is in partition %d want %d", what, i, ps.Partition(i), p)
+		}
+		if p >= 0 {
+			cols[p] = append(cols[p], i)
+		}
+	}
+	for pi := range blocks {
+		if ps.PartitionName(pi) != m.Names[pi] {
+			return fmt.Errorf("%s: partition %d is named %q want %q", what, pi, ps.PartitionName(pi), m.Names[pi])
+		}
+		if err := sameAli(blocks[pi], takeCols(rows, cols[pi]), fmt.Sprintf("%s: Split block %d (%s)", what, pi, m.Names[pi])); err != nil {
+			return err
+		}
+	}
+	if !gen.SameRows(gen.Snapshot(al), rows) {
+		return fmt.Errorf("%s: Split changed its receiver", what)
+	}
+	return nil
+}
+
+func checkHist(c histCase) (o pbt.Outcome, err error) {
+	rows, l := c.Ali.Rows, aliLen(c.Ali)
+	al := gen.MustBuild(c.Ali)
+	var ps *align.PartitionSet
+	if c.FromText > 0 {
+		txt := partitionText(splitCase{Ranges: c.Ranges[:c.FromText], PartL: l})
+		var e error
+		if ps, e = partition.NewParser(strings.NewReader(txt)).Parse(l); e != nil {
+			return o, fmt.Errorf("partition text %q refused: %v", txt, e)
+		}
+		o.Class("history:starts-from-text")
+	} else {
+		ps = align.NewPartitionSet(l)
+		o.Class("history:starts-empty")
+	}
+	existingAfterSplit, newAfterSplit := 0, 0
+	for k := c.FromText; k <= len(c.Ranges); k++ {
+		m := modelPartition(c.Ranges[:k], l)
+		what := fmt.Sprintf("after %d of the ranges %+v on %d columns", k, c.Ranges, l)
+		// twice in a row: the observation must not change the partition set
+		for rep := 0; rep < 2; rep++ {
+			if err = judgeSplit(rows, al, ps, m, what); err != nil {
+				return
+			}
+		}
+		if k == len(c.Ranges) {
+			break
+		}
+		r := c.Ranges[k]
+		known := false
+		for _, n := range m.Names {
+			known = known || n == r.Name
+		}
+		if e := ps.AddRange(r.Name, r.Model, r.Start, r.End, r.Mod); e != nil {
+			return o, fmt.Errorf("%s: AddRange(%+v) refused: %v", what, r, e)
+		}
+		if len(m.Names) > 1 {
+			if known {
+				existingAfterSplit++
+			} else {
+				newAfterSplit++
+			}
+		}
+	}
+	o.NonTrivial = existingAfterSplit > 0
+	if existingAfterSplit > 0 {
+		o.Class("history:range-added-to-an-existing-partition-after-a-split")
+	}
+	if newAfterSplit > 0 {
+		o.Class("history:new-partition-after-a-split")
+	}
+	return o, nil
+}
+
+func TestSplitHistory(t *testing.T) { pbt.Run(t, genHist, checkHist) }
